@@ -116,9 +116,23 @@ func VerifPipelineSendData(binary bool, newline string, initSize int64, frames [
 // VerifPipelineRecvFrames feeds the wire to a fresh transfer chunk by chunk and runs the
 // real pipelineRecvData until the finish flag or an error.
 func VerifPipelineRecvFrames(binary bool, timeoutSec int, wire [][]byte) (frames [][]byte, acks []int, rest []byte, err error) {
+	return verifPipelineRecvFrames(binary, false, timeoutSec, wire)
+}
+
+// VerifPipelineRecvFramesWindows is the same on the Windows-console path of recvLine
+// (windowsProtocol: lines end at '!', read by readLineOnWindows).
+func VerifPipelineRecvFramesWindows(binary bool, timeoutSec int, wire [][]byte) (frames [][]byte, acks []int, rest []byte, err error) {
+	return verifPipelineRecvFrames(binary, true, timeoutSec, wire)
+}
+
+func verifPipelineRecvFrames(binary, windows bool, timeoutSec int, wire [][]byte) (frames [][]byte, acks []int, rest []byte, err error) {
 	t := newTransfer(nil, nil, false, nil)
 	t.transferConfig.Binary = binary
 	t.transferConfig.Timeout = timeoutSec
+	t.windowsProtocol = windows
+	if windows {
+		t.transferConfig.Newline = "!\n"
+	}
 	for _, c := range wire {
 		t.buffer.addBuffer(c)
 	}
